@@ -13,6 +13,7 @@ type CaseC07 struct {
 	Box           ref.Box
 	DX, DY, DV    int64
 	DX2, DY2, DV2 int64
+	Spell         int64 `json:",omitempty"`
 }
 
 func genHShift(t *rapid.T, label string, h int64) int64 {
@@ -42,6 +43,7 @@ func genC07(t *rapid.T) *CaseC07 {
 	c := &CaseC07{Box: genBox(t, "b")}
 	c.DX, c.DY, c.DV = genHShift(t, "dx", c.Box.H), genHShift(t, "dy", c.Box.H), genVShift(t, "dv")
 	c.DX2, c.DY2, c.DV2 = genHShift(t, "dx2", c.Box.H), genHShift(t, "dy2", c.Box.H), genVShift(t, "dv2")
+	c.Spell = genSpell(t)
 	return c
 }
 
@@ -83,6 +85,12 @@ func absI(v int64) int64 {
 
 func checkC07(c *CaseC07, fl *Fails) {
 	id := c.Box.Ext()
+	if c.Spell != 0 {
+		// a non-canonical spelling of the same ID must be shifted to the same (canonical) result
+		if g := operated.GetShiftingSpatialID(spelledExt([]ref.Box{c.Box}, c.Spell)[0], c.DX, c.DY, c.DV); g != ref.Shift(c.Box, c.DX, c.DY, c.DV).Ext() {
+			fl.Add("shift-spelling", "shift(%s, %d,%d,%d) = %q, modular reference %q", spelledExt([]ref.Box{c.Box}, c.Spell)[0], c.DX, c.DY, c.DV, g, ref.Shift(c.Box, c.DX, c.DY, c.DV).Ext())
+		}
+	}
 	got := operated.GetShiftingSpatialID(id, c.DX, c.DY, c.DV)
 	want := ref.Shift(c.Box, c.DX, c.DY, c.DV).Ext()
 	if got != want {
